@@ -31,6 +31,10 @@ def corpus(tier, seed):
         # prior that is -inf inside the unit hypercube (disc in a box): drawn candidates are rejected by the prior
         ins_spec("disc2", s + 12, 100, max_iteration=4),
         ins_spec("rect3", s + 14, 100, max_iteration=4, kills=[400]),
+        # with the sampler's own plots enabled (plotting_frequency 2: plots are produced before checkpoints)
+        ins_spec("gauss2", s + 15, 60, max_iteration=4, plot=True, plotting_frequency=2),
+        ins_spec("gauss2", s + 16, 60, max_iteration=4, plot=True, plotting_frequency=2, draw_iid_live=False,
+                 kills=[250]),
         ins_spec("disc2", s + 13, 100, max_iteration=4, draw_iid_live=False, kills=[350]),
     ]
     if tier == "thorough":
